@@ -284,6 +284,7 @@ func RBitmap(c *core.Ctx) {
 		return
 	}
 	// who writes .ascii and .bits
+	nBitWrites := 0
 	for _, fn := range p.ModuleFuncs() {
 		name := core.SSAName(fn)
 		for _, b := range fn.Blocks {
@@ -298,6 +299,17 @@ func RBitmap(c *core.Ctx) {
 				}
 				if ia, ok := st.Addr.(*ssa.IndexAddr); ok && core.FieldVarOfAddr(ia.X) == bits {
 					c.Check(fn == prep, name+" / writes asciiBitmap.bits", st.Pos(), "only prepareASCIIBitmap may fill the table")
+					if fn == prep {
+						// every bit that is set is set because charInSlow said so: the write sits on the true edge of a call of charInSlow
+						under := false
+						for _, f := range core.FactsAtBlock(st.Block()) {
+							if call, ok := f.Cond.(*ssa.Call); ok && f.Val && call.Call.StaticCallee() == slow {
+								under = true
+							}
+						}
+						nBitWrites++
+						c.Check(under, fmt.Sprintf("prepareASCIIBitmap / write to the table #%d is under charInSlow(rune)", nBitWrites), st.Pos(), "the table is written outside the `if c.charInSlow(i)` branch: a second way of deciding membership (filled from the ranges, negated or subtracted afterwards) has to repeat charInSlow's order of negation and subtraction and is not compared with it")
+					}
 				}
 			}
 		}
